@@ -318,7 +318,7 @@ def ob_rounding(chk, P, name):
                         tpl = '{{ a | ' + name + (f': {n}' if n is not None else '') + ' }}'
                         sc = {'kind': 'template', 'template': tpl, 'globals': {'a': av}}
                         if isinstance(av, float) and (math.isnan(av) or math.isinf(av)): sc = None
-                        def conf(res):
+                        def conf(res, av=av, n=n):
                             if res.get('outcome') != 'ok': return True
                             f = float(av) if not isinstance(av, str) else float(av)
                             if n is None or n <= 0:
